@@ -302,3 +302,24 @@ def feasible_formula(A, bz):
     proj, _ = projection(Af, None)
     feas = [row_expr(bv, cst, bz) >= 0 for bv, cst in proj.feas]
     return z3.And(*feas) if feas else z3.BoolVal(True)
+
+
+def feasibility_claims(mode, A, bz, delta=1e-6):
+    """(wrongly_claimed_infeasible, wrongly_claimed_feasible) as formulas over the constants.
+
+    Symbolic mode: exact (feasible / not feasible).  Replay mode: the float code decides feasibility with
+    HiGHS's tolerances, so a claim only counts as wrong if it is wrong robustly: 'infeasible' is wrong if the
+    system tightened by delta*(1+|b|) is still feasible, 'feasible' is wrong if even the relaxed system is not.
+    """
+    if mode != "real":
+        f = feasible_formula(A, bz)
+        return f, z3.Not(f)
+
+    def shifted(sign):
+        out = []
+        for b in bz:
+            mag = z3.If(b >= 0, b, -b)
+            out.append(b + sign * E.q(delta) * (1 + mag))
+        return out
+
+    return feasible_formula(A, shifted(-1)), z3.Not(feasible_formula(A, shifted(+1)))
